@@ -869,6 +869,16 @@ pub fn gen_framed_words(
                 payload.extend_from_slice(&[0u8; 6]);
             }
         }
+        if df == 0 && nwords >= 2 && rng.chance(1, 6) {
+            // the six filler bytes of a slot are not part of any word: 0xFF in the filler of the LAST slot must
+            // not make that slot look like padding (not with a single word: bytes 10..15 of the payload are
+            // what the tool recognises the layout by)
+            let k = rng.range(1, 6) as usize;
+            let n = payload.len();
+            for b in payload[n - k..].iter_mut() {
+                *b = 0xFF;
+            }
+        }
         if df != 0 {
             let mut pad = if rng.chance(1, 2) { (16 - payload.len() % 16) % 16 } else { rng.below(16) as usize };
             // a last word ending in 0xFF bytes (ID 0xFF) is only distinguishable from padding while the whole
